@@ -4,7 +4,8 @@ monitor Async/ChanSpec.lean, theorems lean/Witverif/Props/C19.lean.  Tie: see ch
 import chan_common
 
 WHAT = {
-    "fifo": "transferred items are not exactly the next unsent items, in order",
+    "fifo": "transferred items are not exactly the next unsent items, in order (or the pointer handed to the host is not base + "
+            "elements already transferred x element size)",
     "count": "a write/read result reports a count different from what the host moved",
     "return": "values handed back (into_vec / write_all / write_one / read results) are not exactly the untransferred / received ones",
     "value": "a payload value dropped twice, never dropped, or lowered/lifted out of order",
@@ -18,7 +19,7 @@ WHAT = {
 
 def run(c):
     c.rule = ("scripts: 1..3 stream channels (guest holds the writable or the readable end, the host is the peer; payload kinds "
-              "canonical u8 / lowered without lists / lowered with an owned list; scripted answer to a cancel race), a task body over "
+              "canonical of element size 1, 2, 4, 8 (u8, u16, u32, u64) and a tuple (u32,u32) / lowered without lists / lowered with an owned list; scripted answer to a cancel race), a task body over "
               "{open, write n, write_buf, into_vec, write_all n, write_one, read n, next, collect, poll, await, cancel, drop op, drop end, "
               "suspend, yield, move to the other task (cabi2)} and peer directives {transfer up to m, drop, deliver}; task cancel when directives run out; modes cabi1/"
               "cabi2 (exact trace equality with the model) and export (real executor, spec side only); builds default and futures-stream "
@@ -48,6 +49,9 @@ def run(c):
         "cabi2 (v2 task ABI) scripts move the body between two harness tasks (`t<n>`) while stream/future operations are registered; with "
         "the v1 ABI (cabi1) a move leaves a stale registration behind — C18's known finding waitable-v1-cross-task, judged there, not "
         "generated here; the transition-system theorems are about one task",
+        "the byte offset of a stream.write / stream.read pointer is taken relative to the base of the live heap block the pointer lies in "
+        "(checking allocator; the vector's storage or the slab), looked up at most 4096 bytes back; the host decodes the ids of the items "
+        "from the bytes at the pointer it was given (values of the wide canonical kinds are patterns in which every byte depends on the id)",
         "native x86-64; export-mode traces are checked against the spec side only (executor model: C22)",
         "traces are compared up to the first host trap (the mock lets the guest continue, a real host does not); the spec side judges "
         "the trace BEFORE a trap / the start of a panic as a prefix (run-level clauses, host legality, waitable rules, anomalies; no "
